@@ -668,7 +668,7 @@ macro_rules! zoo_types {
             (Wrap<AllKinds>, "Wrap<AllKinds>", "enum", ["nulls"]),
             (Wrap<DataOnly>, "Wrap<DataOnly>", "enum", []),
             (HasColor, "HasColor", "enum-dataless", ["dataless"]),
-            (HasUnitPayload, "HasUnitPayload", "enum-unit-payload", ["dataless", "nulls"]),
+            (HasUnitPayload, "HasUnitPayload", "enum-unit-payload", ["dataless"]),
             (OptColor, "OptColor", "option-enum-dataless", ["dataless"]),
             (EnumVec, "EnumVec", "enum-in-vec", []),
             (EnumInStructInVec, "EnumInStructInVec", "enum-in-struct-in-vec", []),
